@@ -298,6 +298,9 @@ ReuseDocs ==
   \* variable defaults that are input objects / lists of them: completing them with input field defaults must not touch the parsed request
   \cup { [ops |-> <<Op("Q", "query", <<VarDefD("iv", Named("In"), ObjV([a |-> StrV("x")])), VarDef("sv", S)>>,
                        <<FA("", "obj", <<Arg("in", Var("iv"))>>), FA("o2", "obj", <<Arg("in", ObjV([a |-> Var("sv")]))>>)>>)>>, frags |-> <<>>] }
+  \* a variable default that is a list whose members are converted when they are coerced (numbers written for IDs)
+  \cup { [ops |-> <<Op("Q", "query", <<VarDefD("idv", ListOf(NonNull(Named("ID"))), ListV(<<IntV(1), IntV(2)>>)), VarDef("sv", S)>>,
+                       <<FA("", "ids", <<Arg("v", Var("idv"))>>), FA("x", "ids", <<Arg("v", ListV(<<IntV(3), Var("sv")>>)), Arg("w", IntV(7))>>)>>)>>, frags |-> <<>>] }
   \cup { Doc1(<<FS("", "a", <<FA("", "tag", <<BogusArg>>), F("", "n")>>)>>),
          Doc1(<<FS("", "items", <<FA("", "tag", <<Arg("s", StrV("v")), BogusArg>>)>>)>>),
          Doc1(<<FS("", "a", <<F("", "nope"), F("", "name")>>), F("", "need")>>) }
